@@ -222,7 +222,15 @@ def gen_case(d, tier, bulk=False):
     used = set()
     dims = []
     ndims = 0 if minimal else d.int(0, 5)
-    has_rec = False
+    # now and then a file dominated by its dimension list: many dimensions with short names and little else
+    manydims = not bulk and not minimal and d.int(0, 11) == 0
+    if manydims:
+        for i in range(d.int(13, 120)):
+            nm = (d.pick("abcdexyz") + "%d" % i)[:4].encode()
+            used.add(nm)
+            dims.append([nm.hex(), d.int(1, 3) if i != 5 else 0])
+        ndims = 0
+    has_rec = any(dm[1] == 0 for dm in dims)
     for i in range(ndims):
         k = d.int(0, 11)
         if k <= 3 and not has_rec:
@@ -235,13 +243,13 @@ def gen_case(d, tier, bulk=False):
     numrecs = d.int(0, 5) if has_rec else 0
     # ---- global attributes
     used = set()
-    gatts = [gen_att(d, version, used) for _ in range(0 if minimal else d.int(0, 3))]
+    gatts = [gen_att(d, version, used) for _ in range(0 if minimal else (d.int(0, 1) if manydims else d.int(0, 3)))]
     # ---- variables
     used = set()
     vars_ = []
     fixed_dims = [i for i, dm in enumerate(dims) if dm[1] != 0]
     rec_dim = [i for i, dm in enumerate(dims) if dm[1] == 0]
-    nvars = 0 if minimal else d.int(0, 4)
+    nvars = 0 if minimal else (d.int(0, 1) if manydims else d.int(0, 4))
     seen_rec = False
     for vi in range(nvars):
         nd = d.pick([0, 1, 1, 2, 2, 3, 5])
